@@ -402,6 +402,7 @@ type vhRound struct {
 	precommCh  chan tsi.HashSelection
 	// first answers handed to the state machine on the round's own channels
 	pvAnswered, pcAnswered, propAnswered bool
+	propCount                            int // proposals the strategy sent on this round's channel
 	pvAnswer, pcAnswer                   string
 	propData                             string
 	catchupCH                            *tmconsensus.CommittedHeader
@@ -834,7 +835,8 @@ func (e *vhSM) applicable(kinds []int) []int {
 		case evPrecommitAnswer:
 			ok = e.pendingReq(false) != nil
 		case evProposal:
-			ok = live && rd != nil && rd.proposalCh != nil && !rd.propAnswered && e.cur.h == vhInitialHeight && e.participating
+			// (the strategy may send a second, different proposal on the same round's channel)
+			ok = live && rd != nil && rd.proposalCh != nil && rd.propCount < 2 && e.cur.h == vhInitialHeight && e.participating
 		case evFinalization:
 			ok = e.pendingFin() != nil
 		case evHeightCommitted:
@@ -981,9 +983,24 @@ func (e *vhSM) deliver(k int) bool {
 			return true
 		}
 	case evProposal:
-		rd.propAnswered = true
-		rd.propData = "dP"
-		rd.proposalCh <- tmconsensus.Proposal{DataID: "dP"}
+		rd.propCount++
+		data := "dP"
+		if rd.propCount > 1 {
+			data = "dQ"
+		}
+		select {
+		case rd.proposalCh <- tmconsensus.Proposal{DataID: data}:
+			if !rd.propAnswered {
+				rd.propAnswered = true
+				rd.propData = data
+			}
+		default:
+		}
+		if e.rlc.ProposalCh == nil || len(e.rlc.ProposalCh) == 0 {
+			// a second proposal after the first was taken: nobody listens any more
+			e.afterEvent()
+			return true
+		}
 	case evFinalization:
 		f := e.pendingFin()
 		f.answered = true
